@@ -31,6 +31,9 @@ type c09Input struct {
 	// Limit is the entry limit of the request (0 = none given): it limits log results, never the samples of
 	// a metric query.
 	Limit int `json:"limit,omitempty"`
+	// Many > 0: instead of A, series a carries Many samples spread evenly over seconds 0..8 (values 1..Many in a
+	// scrambled order): windows holding more samples than any small-slice threshold of sorting / buffering code.
+	Many int `json:"many,omitempty"`
 }
 
 func (in c09Input) unit() int64 {
@@ -101,6 +104,13 @@ func c09Data(in c09Input, fn c09Fn) []mockq.Rec {
 			labels = append(labels, mockq.KV{K: "v", V: v})
 		}
 		recs = append(recs, mockq.Rec{TS: c09Base*sec + int64(s)*in.unit(), Line: "xy\u00e9\u4e16", Labels: labels}) // 4 characters, 7 bytes
+	}
+	for k := 0; k < in.Many; k++ {
+		labels := []mockq.KV{{K: "s", V: "a"}}
+		if fn.unwrap {
+			labels = append(labels, mockq.KV{K: "v", V: strconv.Itoa(1 + (k*7919)%in.Many)})
+		}
+		recs = append(recs, mockq.Rec{TS: c09Base*sec + int64(k)*8*sec/int64(in.Many) + int64(k%7), Line: "xy\u00e9\u4e16", Labels: labels})
 	}
 	for i, s := range in.A {
 		add("a", s, 0)
@@ -310,8 +320,27 @@ func c09Run(r *vkit.Run) {
 			r.NonTrivial()
 		}
 		r.State(fmt.Sprintf("%d:%v", di, d))
+		if di == 0 {
+			// windows with many samples (shard of the first data set only)
+			for _, many := range []int{13, 50, 300, 2000} {
+				for _, fn := range c09Fns {
+					if fn.vals != "" && fn.vals != "pow2" {
+						continue
+					}
+					for _, rg := range []int{2, 4} {
+						for _, step := range []int{0, 1, 3} {
+							span := 0
+							if step > 0 {
+								span = 8
+							}
+							c09Check(r, c09Input{Many: many, Fn: fn.name, RangeS: rg, StartS: 3, SpanS: span, StepS: step, TimeFilter: true})
+						}
+					}
+				}
+			}
+		}
 	}
-	r.Note("bounds", fmt.Sprintf("sample sets: all subsets of {0..8}s of size <=%d (+ doubled-timestamp and second-series variants); ranges {1,2,4}s x offsets {0,1,3}s x starts 0..6 x spans 0..8 x steps {instant,1,2,3,5}s x storage time-filtering on/off for count/avg/last; a reduced grid (starts {0,3}, spans {0,4,8}, steps {instant,1,3}) for the other %d function variants; the three window-identifying functions again on grids in units of 100 ms and of 15 s; request entry limits {none,1,2} (a metric query ignores them); unwrapped durations with fractional seconds, byte sizes in four units", maxSize, len(c09Fns)-3))
+	r.Note("bounds", fmt.Sprintf("sample sets: all subsets of {0..8}s of size <=%d (+ doubled-timestamp and second-series variants); ranges {1,2,4}s x offsets {0,1,3}s x starts 0..6 x spans 0..8 x steps {instant,1,2,3,5}s x storage time-filtering on/off for count/avg/last; a reduced grid (starts {0,3}, spans {0,4,8}, steps {instant,1,3}) for the other %d function variants; the three window-identifying functions again on grids in units of 100 ms and of 15 s; windows holding 13, 50, 300 and 2000 samples for every function; request entry limits {none,1,2} (a metric query ignores them); unwrapped durations with fractional seconds, byte sizes in four units", maxSize, len(c09Fns)-3))
 }
 
 func c09Replay(r *vkit.Run, v vkit.Violation) *vkit.Violation {
